@@ -5,7 +5,7 @@ CONSTANTS
   MaxTime = 5
   TickSteps = {1, 2}
   MaxClk = 7
-  ExpireCmp = ">="
+  FixOnRefresh = TRUE
 VIEW view
 CONSTRAINT Bounded
 INVARIANTS TypeOK HeapOrdered RootOldest OnePerAddr ClosedIffGone PostSweepExact
